@@ -8,6 +8,7 @@ pub mod c05;
 pub mod c06;
 pub mod c07;
 pub mod c12;
+pub mod jcsfam;
 pub mod parsefam;
 pub mod printfam;
 
@@ -22,6 +23,8 @@ pub fn run(id: &str, cfg: &Config) -> i32 {
 		"C05" => c05::run(cfg),
 		"C06" => c06::run(cfg),
 		"C07" => c07::run(cfg),
+		"C09" => jcsfam::run_c09(cfg),
+		"C10" => jcsfam::run_c10(cfg),
 		"C12" => c12::run(cfg),
 		_ => {
 			println!("INCONCLUSIVE property={} no such check", id);
@@ -63,6 +66,7 @@ pub fn replay(id: &str, cfg: &Config, path: &Path) -> i32 {
 		("C03", _) => c03::replay_case(cfg, &case),
 		("C06", "history") => c06::replay_case(&case),
 		("C04" | "C08" | "C13", _) => printfam::replay_case(id, &case),
+		("C09" | "C10", _) => jcsfam::replay_case(id, &case),
 		_ => None,
 	};
 	match fired {
